@@ -405,7 +405,7 @@ func (c *Ctx) termSCC(scc []*ssa.Function) {
 		if s, _ := core.StructOf(prm.Type()); s != nil {
 			for i := 0; i < s.NumFields(); i++ {
 				if _, ok := s.Field(i).Type().Underlying().(*types.Map); ok {
-					fname := s.Field(i).Name()
+					fname := core.CanonFieldName(s, i)
 					owner := core.NamedOf(prm.Type())
 					cands = append(cands, cand{desc: owner + "." + fname, isM: func(v ssa.Value) bool {
 						fr, ok := core.AsFieldLoad(v)
